@@ -2,10 +2,12 @@
 //      `time_until` by Kani unit K3) ----
 #[derive(Clone, Copy)] pub struct Instant { pub t: u64 }
 #[derive(Clone, Copy)] pub struct Duration { pub ms: u64 }
-#[derive(Clone, Copy)] pub struct TraceContext { pub trace_id: u128, pub span_id: u64, pub sampled: bool }
+pub mod trace {
+    #[derive(Clone, Copy)] pub struct Context { pub trace_id: u128, pub span_id: u64, pub sampled: bool }
+}
 pub mod context {
     use super::*;
-    #[derive(Clone, Copy)] pub struct Context { pub deadline: Instant, pub trace_context: TraceContext }
+    #[derive(Clone, Copy)] pub struct Context { pub deadline: Instant, pub trace_context: trace::Context }
 }
 
 /// `until(d)` = what `d.time_until()` answers (saturating `d - now`): uninterpreted here.
